@@ -337,7 +337,7 @@ def gen_op(rng, ai, pool, ctx):
     if kind == 'meth':
         a = gen_operand(rng, pool, ai, ctx)
         names = ['grade', 'grade', 'dual', 'undual', 'norm', 'normalized', 'exp', 'pow', 'pow',
-                 'asfullmv', 'filter', 'getblade', 'map']
+                 'asfullmv', 'filter', 'getblade', 'map', 'deepcopy', 'pickle', 'copy']
         if pool.d <= 3:
             names.append('asmatrix')
         if ctx['valkind'] == 'nd':
